@@ -14,12 +14,20 @@ def unhexL : List Char → Option Bytes
     pure ((x * 16 + y) :: r)
   | _ => none
 
-def unhex (s : String) : Option Bytes := if s == "-" then some [] else unhexL s.toList
+/-- the payload the token `%<n>` stands for: n bytes of a fixed pattern (the harness has the same definition) -/
+def patBytes (n : Nat) : Bytes := (List.range n).map (fun i => (i * 7 + i / 251 + 3) % 256)
+
+def unhex (s : String) : Option Bytes :=
+  if s == "-" then some []
+  else if s.startsWith "%" then ((s.drop 1).toString.toNat?).map patBytes
+  else unhexL s.toList
 
 def hexDigit (n : Nat) : Char := if n < 10 then Char.ofNat (n + 48) else Char.ofNat (n - 10 + 97)
 
 def hex (b : Bytes) : String :=
-  if b.isEmpty then "-" else String.ofList (b.flatMap (fun x => [hexDigit (x / 16), hexDigit (x % 16)]))
+  if b.isEmpty then "-"
+  else if b.length > 64 && b == patBytes b.length then s!"%{b.length}"
+  else String.ofList (b.flatMap (fun x => [hexDigit (x / 16), hexDigit (x % 16)]))
 
 def showMsg (m : Msg) : String := s!"{hex m.mtype}:{hex m.key}:{hex m.payload}"
 
